@@ -175,6 +175,8 @@ def writeWaveform (ops : FOps) (w : List WEntry) (sampleCount : Option UInt64) (
         else
           let q := u64OfInt qn
           (1024, ops.div (ops.ofU64 ((n / q) * q)) (ops.ofU64 1024))
+      -- `if (extents.size == 0) throw invalid_track_snapshot` (fix: the waveform was silently dropped)
+      if size = 0 then .throw (.dj "invalid_track_snapshot") else
       (resample w size).bind fun es =>
         .ok ⟨spe, pointsOf es, [maxOf (·.lv) es, maxOf (·.mv) es, maxOf (·.hv) es]⟩
   | _, _ => .throw (.dj "invalid_track_snapshot")
